@@ -455,15 +455,21 @@ def unknown_field(rng, known):
         if num not in known and not (19000 <= num <= 19999):
             break
     wt = rng.choice([0, 1, 2, 5])
+    # an over-long (non-canonical) spelling of the value / length varint is still a well-formed
+    # field that the reader must skip without disturbing anything (seeded change C15-2)
+    def spell(v):
+        if len(v) < 9 and rng.chance(1, 3):
+            return nonminimal(v, rng.range(1, min(3, 10 - len(v))))
+        return v
     if wt == 0:
-        pay = ref_varint(rng.choice(BOUNDARY["uint64"]))
+        pay = spell(ref_varint(rng.choice(BOUNDARY["uint64"])))
     elif wt == 1:
         pay = rng.bytes(8)
     elif wt == 5:
         pay = rng.bytes(4)
     else:
         body = rng.bytes(rng.choice([0, 1, 2, 7, 127, 128, 200]))
-        pay = ref_varint(len(body)) + body
+        pay = spell(ref_varint(len(body))) + body
     return ref_tag(num, wt) + pay
 
 
@@ -846,7 +852,9 @@ def run_lines(exe, lines, workdir, tag):
     p = os.path.join(workdir, tag + ".in")
     with open(p, "w") as fh:
         fh.write("\n".join(lines) + "\n")
-    rc, out = vlib.sh("%s < %s" % (exe, p), timeout=3000)
+    # the extracted model recurses on list structure: give it the whole stack (a 100 KB string
+    # overflowed the default 8 MB and killed the driver - a machinery error, not a verdict)
+    rc, out = vlib.sh("ulimit -s unlimited 2>/dev/null || ulimit -s 1000000; %s < %s" % (exe, p), timeout=3000)
     res = out.split("\n")
     if res and res[-1] == "":
         res.pop()
